@@ -5,6 +5,7 @@ import (
 	"go/constant"
 	"go/token"
 	"go/types"
+	"sort"
 	"strings"
 
 	"golang.org/x/tools/go/ssa"
@@ -1276,17 +1277,61 @@ func errPathsDisciplined(err *ssa.Extract, f *ssa.Function) string {
 		excused
 	)
 	type st struct {
-		b *ssa.BasicBlock
-		k int
+		b   *ssa.BasicBlock
+		k   int
+		env string
+	}
+	// env: what the boolean phis passed so far stand for on this path (a constant, or a comparison of the error
+	// made on the way: shortInput := err == io.EOF || err == io.ErrUnexpectedEOF)
+	type benv map[*ssa.Phi]ssa.Value
+	envKey := func(e benv) string {
+		var ks []string
+		for ph, v := range e {
+			ks = append(ks, ph.Name()+"="+v.Name()+v.String())
+		}
+		sort.Strings(ks)
+		return strings.Join(ks, ";")
 	}
 	seen := map[st]bool{}
 	why := ""
-	var walk func(b *ssa.BasicBlock, k int)
-	walk = func(b *ssa.BasicBlock, k int) {
-		if why != "" || seen[st{b, k}] {
+	var walk func(prev, b *ssa.BasicBlock, k int, env benv)
+	walk = func(prev, b *ssa.BasicBlock, k int, env benv) {
+		if why != "" {
 			return
 		}
-		seen[st{b, k}] = true
+		// boolean phis of b take the value of the edge the path came in on
+		if prev != nil {
+			for _, in := range b.Instrs {
+				ph, ok := in.(*ssa.Phi)
+				if !ok {
+					break
+				}
+				if bt, ok := ph.Type().Underlying().(*types.Basic); !ok || bt.Kind() != types.Bool {
+					continue
+				}
+				for i, p := range b.Preds {
+					if p == prev {
+						ne := benv{}
+						for k2, v2 := range env {
+							ne[k2] = v2
+						}
+						v := ph.Edges[i]
+						if q, isPhi := v.(*ssa.Phi); isPhi {
+							if r, known := env[q]; known {
+								v = r
+							}
+						}
+						ne[ph] = v
+						env = ne
+					}
+				}
+			}
+		}
+		key := st{b, k, envKey(env)}
+		if seen[key] {
+			return
+		}
+		seen[key] = true
 		if len(b.Instrs) == 0 {
 			return
 		}
@@ -1301,6 +1346,24 @@ func errPathsDisciplined(err *ssa.Extract, f *ssa.Function) string {
 			}
 		case *ssa.If:
 			cond, pos := core.StripNot(t.Cond, true)
+			if ph, isPhi := cond.(*ssa.Phi); isPhi {
+				if v, known := env[ph]; known {
+					c2, p2 := core.StripNot(v, true)
+					cond = c2
+					if !p2 {
+						pos = !pos
+					}
+				}
+			}
+			if cb, isC := core.ConstBool(cond); isC {
+				// the path determines the branch
+				if cb == pos {
+					walk(b, b.Succs[0], k, env)
+				} else {
+					walk(b, b.Succs[1], k, env)
+				}
+				return
+			}
 			tk, fk := k, k
 			if bo, ok := cond.(*ssa.BinOp); ok && (bo.X == ssa.Value(err) || bo.Y == ssa.Value(err)) && (bo.Op == token.EQL || bo.Op == token.NEQ) {
 				other := bo.Y
@@ -1310,6 +1373,9 @@ func errPathsDisciplined(err *ssa.Extract, f *ssa.Function) string {
 				eqK, neK := k, k
 				if core.IsNilConst(other) {
 					eqK, neK = isNil, nonNil
+					if k == excused {
+						neK = excused // equal to a sentinel: certainly not nil, and still excused
+					}
 				} else if _, isG := core.LoadOfGlobal(other); isG {
 					eqK = excused
 					if k == untested {
@@ -1328,15 +1394,15 @@ func errPathsDisciplined(err *ssa.Extract, f *ssa.Function) string {
 					fk = excused
 				}
 			}
-			walk(b.Succs[0], tk)
-			walk(b.Succs[1], fk)
+			walk(b, b.Succs[0], tk, env)
+			walk(b, b.Succs[1], fk, env)
 		default:
 			for _, sc := range b.Succs {
-				walk(sc, k)
+				walk(b, sc, k, env)
 			}
 		}
 	}
-	walk(err.Block(), untested)
+	walk(nil, err.Block(), untested, benv{})
 	return why
 }
 
